@@ -49,6 +49,7 @@ class Recorder:
         self.reduce_spans = []
         self.simp_origin = {}
         self.cur_task = {}
+        self.passes = {}
         self.max_tokens = 0
         self.last_task_main = None
         self.ntests = None
